@@ -351,6 +351,13 @@ def i_range(*a):
             lo, hi = 0, a[0]
         elif len(a) == 2:
             lo, hi = a
+        elif len(a) == 3 and isinstance(a[2], int) and a[2] > 0 and isinstance(a[0], int):
+            lo, hi, step = a
+            # number of iterations by forking on the bound (at most 64)
+            for k in range(0, 65):
+                if bool(hi <= lo + k * step):
+                    return range(lo, lo + k * step, step)
+            raise Unsupported("range(): symbolic bound above 64 iterations")
         else:
             raise Unsupported("range with symbolic step")
         if isinstance(lo, SymInt):
